@@ -7,7 +7,7 @@ CLAIMED = {
 
 
  "C01": ("property-based testing / fuzzing: class-biased token soup and damaged programs under catch_unwind in-process, depth ladder per recursive construct in child processes under a watchdog, both build profiles (libFuzzer byte target planned in thorough tier)",
-         "Exploration: ~600k generated strings (every adjacency of the tokenizer's character classes, multi-byte scalars, unterminated constructs, damaged programs) and the operator x edge-palette programs go through parse/execute/expr/describe in the dev and the release build; every recursive construct is nested 1..48, 64, 100, 300, 1000 (must never abort), 3000 and 10000 deep (known stack findings by construct; iterative constructs up to 10^6) in both builds. Held on everything explored apart from the listed known findings.",
+         "Exploration: ~600k generated strings (every adjacency of the tokenizer's character classes, multi-byte scalars, unterminated constructs, damaged programs) and the operator x edge-palette programs go through parse/execute/expr/describe in the dev and the release build, ~1/48 of the cases in fresh processes with 2-6 user-registered operators (any i32 precedence, both associativities); every recursive construct is nested 1..48, 64, 100, 300, 1000 (must never abort), 3000 and 10000 deep (known stack findings by construct; iterative constructs up to 10^6) in both builds. Held on everything explored apart from the listed known findings.",
          "Termination is decided by watchdog only (30 s vs. milliseconds, reproduced three times); absence of panics is not proven.",
          "DESIGN.md §4 C01"),
 
@@ -35,7 +35,7 @@ CLAIMED = {
          "Exploration: ~30k histories (6-30 steps, 1-4 threads) over pools of programs that share names; outcomes (result and final context) compared with the reference evaluator's solo outcome, parse results with the reference parser under the last registration; 1/64 of cases cross-check the solo outcome in a fresh process.",
          "Concurrent bursts sample free-running interleavings; the harness's own registrations are modelled.",
          "DESIGN.md §4 C16"),
- "C05": ("property-based testing with an exhaustive component: all token sequences up to length 5 (quick) / 6 (thorough) over a 22-symbol alphabet, plus generated corruptions of valid programs, against a lenient nondeterministic reference recogniser (one-directional oracle)",
+ "C05": ("property-based testing with an exhaustive component: all token sequences up to length 5 (quick) / 6 (thorough) over a 23-symbol alphabet, plus generated corruptions of valid programs, against a lenient nondeterministic reference recogniser (one-directional oracle)",
          "Exploration, exhaustive over the stated finite space: every sequence of <= 5 (6) tokens over the class alphabet, ~3M corruptions (token level, character level, number-shaped junk) and parse/register/parse histories in fresh processes are parsed; whenever no lenient reading of the documented grammar exists the engine must return Err.",
          "Trusts the recogniser as the lenient reading of the grammar (it can only err toward accepting, which asserts nothing). Acceptance of valid programs is C02/C11/C12's job.",
          "DESIGN.md §4 C05"),
@@ -57,23 +57,23 @@ CLAIMED = {
          "Needs the cfg-guarded init probe; deadlock = 10 s watchdog reproduced; the listed known finding (torn registration) is tolerated by exact signature only.",
          "DESIGN.md §4 C13"),
  "C14": ("exhaustive matrix plus generated chains in fresh child processes: every handler kind x every re-entrant action, each handler probing all engine locks with try_lock before acting, under a watchdog",
-         "Exploration, exhaustive over the stated matrix: 12 handler kinds x 11 re-entrant actions, all ordered kind pairs x 3 actions, and ~8000 generated chains of 2-4 handlers; every handler finds all registries and the evaluating context unlocked, the action completes and the outer evaluation returns the hand-computed value.",
+         "Exploration, exhaustive over the stated matrix: 13 handler kinds x 15 re-entrant actions (incl. re-registering the running handlers and registering an operator used later in the running program), all ordered kind pairs x 5 actions, and ~8000 generated chains of 2-4 handlers; every handler finds all registries and the evaluating context unlocked, the action completes and the outer evaluation returns the hand-computed value.",
          "Lock state through the cfg-guarded locks_free() hook and the context's public mutex; single-threaded evaluations, so a held lock is attributable to the engine.",
          "DESIGN.md §4 C14"),
  "C18": ("stateful property testing: generated descriptor-registration histories in fresh child processes over 1-3 persistent threads; describe() of every AST after every step on every thread against a model registry of marker descriptors; exhaustive single-registration table",
-         "Exploration: ~3k histories (nine node kinds, names shared across kinds, re-registrations, cross-thread registration) with ~65k describe() comparisons, plus the 9 kinds x name table; rendering must use exactly the registered descriptor and the documented default otherwise.",
+         "Exploration: ~3k histories (nine node kinds, names shared across kinds, re-registrations, cross-thread registration) with ~65k describe() comparisons, plus the 9 kinds x name table and, per kind, a race between replacing a registered descriptor and concurrent describe() calls; rendering must use exactly the registered descriptor and the documented default otherwise.",
          "Registrations go through the cfg-guarded re-export of DescriptorManager; ASTs come from fully parenthesised text.",
          "DESIGN.md §4 C18"),
  "C09": ("property-based testing: generated decimal literals and operand pairs against exact big-integer decimal arithmetic; malformed-literal corpus and generator",
-         "Exploration: literals of every digit count/scale and pairs under + - * % < <= > >= == != and compound forms are evaluated and compared with exact arithmetic whenever the exact result is representable; malformed literals must be rejected.",
+         "Exploration: literals of every digit count/scale and pairs under + - * % < <= > >= == != and compound forms are evaluated and compared with exact arithmetic whenever the exact result is representable; malformed literals must be rejected; a literal assigned over an earlier literal must keep its own mantissa and scale.",
          "Trusts the harness's big-integer decimal code (unit-tested); results that need rounding are not asserted.",
          "DESIGN.md §4 C09"),
  "C11": ("property-based testing, metamorphic: AST(canonical) == AST(re-laid-out) == AST(with redundant parentheses) over generated programs",
-         "Exploration: generated programs are re-rendered with random whitespace (incl. empty where lexically safe) at every token boundary and with 1-3 pairs of parentheses around complete subexpressions; all renderings must give the same AST.",
+         "Exploration: generated programs are re-rendered with random whitespace (incl. empty where lexically safe) at every token boundary and with 1-3 pairs of parentheses around complete subexpressions; all renderings must give the same AST; one case in 64 does so in a fresh process with 13 user-registered operators (some registered in several positions under one spelling). One known finding (parentheses closing after a postfix operator in front of a spelling registered as postfix and infix) is tolerated by its classified signature only.",
          "Token boundaries and subexpression spans come from the generator / reference parser; no oracle for the tree itself is needed.",
          "DESIGN.md §4 C11"),
  "C12": ("property-based testing, round trip: parse(expr(parse(s))) == parse(s) and idempotent rendering; exhaustive parent/child operator placements",
-         "Exploration: all 32x32x2 parent/child infix placements, prefix/postfix/conditional placements and hundreds of thousands of random programs are parsed, rendered with expr(), re-parsed and compared structurally (numbers by mantissa and scale).",
+         "Exploration: all 32x32x2 parent/child infix placements, prefix/postfix/conditional placements and hundreds of thousands of random programs (a third with a user operator re-registered at precedences 0..205 and either associativity, also followed by non-infix operator tokens) are parsed, rendered with expr(), re-parsed and compared structurally (numbers by mantissa and scale).",
          "Trusts structural comparison of the engine's own AST type; names are never operator words (the property's precondition).",
          "DESIGN.md §4 C12"),
  "C17": ("property-based testing: generated integers/floats/decimals/values against an exact big-integer oracle; exhaustive accessor x variant table",
